@@ -129,6 +129,8 @@ public:
   std::set<const FunctionDecl *> done;
   std::set<const CXXRecordDecl *> recdone;
   std::vector<const FunctionDecl *> pendingLambdas;
+  std::map<const CXXRecordDecl *, std::string> lambdaNames;
+  std::map<std::string, int> lambdaSeen;
 
   std::string fileOf(SourceLocation L) {
     if (L.isInvalid()) return "";
@@ -177,6 +179,13 @@ public:
         if (S != E)  // several lambdas from one macro expansion
           n += "/" + std::to_string(SM.getSpellingLineNumber(S)) + ":" +
                std::to_string(SM.getSpellingColumnNumber(S));
+        // two lambdas spelled by the same macro body in one expansion (DOIO_ONCE(LAMBDA(a), LAMBDA(b))):
+        // disambiguate by order of first request, remembered per closure class
+        auto it = lambdaNames.find(MD->getParent());
+        if (it != lambdaNames.end()) return it->second;
+        int k = ++lambdaSeen[n];
+        if (k > 1) n += "#" + std::to_string(k);
+        lambdaNames[MD->getParent()] = n;
         return n;
       }
     }
